@@ -222,6 +222,7 @@ class Chip(object):
         self.ff = None                     # flood-fill reception state
         self.diag = [0] * 16
         self.arrivals = []                 # (endpoint ip, parsed request)
+        self.busy_until = None             # transient-busy window end
         self.synced = False                # sv/vcpu/diag materialised
         self.p2p_synced = False
         self.rtr_synced = False
@@ -522,6 +523,20 @@ class SimMachine(object):
         # machine-side faults: retryable code, command not executed
         pol = self.net.policy
         extra = 0.0
+        if pol.busy and pol.active and self.machine_faults:
+            now = w.sim.now
+            if chip.busy_until is None:
+                # the spell must be over before the earliest moment a
+                # retransmission (sent one time-out after the first copy) can
+                # arrive, whatever the latencies of the two copies were
+                spell = pol.busy["len"] * max(
+                    0.0, pol.timeout - pol.jitter - pol.base_latency)
+                chip.busy_until = now + spell \
+                    if self.tape.chance(pol.busy["p"]) else -1.0
+            if now < chip.busy_until:
+                w.fault("transient_busy")
+                reply(wire.build_reply(r, RC_P2P_BUSY))
+                return
         if self.machine_faults:
             pr = pol.rate("retryable_rc")
             if pr > 0 and self.tape.chance(pr):
